@@ -224,10 +224,9 @@ class Samples:
         return result
 
     def __deepcopy__(self, memo):
-        if self.mode == "w":
-            return Samples(self.filename, mode="w", overwrite=True)
-        else:
-            return self
+        # File handles can't be duplicated, and opening the file again for writing would
+        # truncate the samples already stored in it. The copy refers to the same file.
+        return self
 
     def close(self):
         if self.mode == "w":
